@@ -114,6 +114,7 @@ def run(ctx):
     plan += [(seed0 + n + i, {"VRT_STRATEGY": "pct"}) for i in range(n // 8)]
     distinct = set()
     samples = []
+    found = 0   # failing inputs / divergences found by THIS search (a broken gen_* or proof obligation never shortens it)
     for env in ({}, {"VRT_STRATEGY": "pct"}):
         seeds = [s for s, e in plan if e == env]
         # (the harness forks one fresh process per history: the library's static allocators persist)
@@ -129,6 +130,7 @@ def run(ctx):
             dist["verdicts"][r["verdict"]] = dist["verdicts"].get(r["verdict"], 0) + 1
             dist["races_by_design"] += len(r["races"])
             ok = classify(ctx, r, "hist", dist)
+            found += 0 if ok else 1
             st = {}
             reading = None
             for l in r["lines"]:
@@ -152,7 +154,7 @@ def run(ctx):
                 distinct.add(sha("\n".join(l for l in r["lines"] if " ev stats" not in l)))
             if not samples and len(r["lines"]) > 80:
                 samples.append(r["lines"][:80])
-            if len(ctx.failing) + len(ctx.broken) > 8:
+            if found > 8:
                 break
     ctx.log("histories replayed: %d ok, %d diverged, %d oracle failures" % (dist["replay_ok"], dist["replay_diverge"], dist["oracle"]))
     ctx.cov["distribution"] = dist
